@@ -3,6 +3,9 @@ package props
 import (
 	"bytes"
 	"fmt"
+	"github.com/dave/dst/decorator/resolver/goast"
+	"github.com/dave/dst/decorator/resolver/guess"
+	"go/token"
 	"reflect"
 	"strings"
 
@@ -20,7 +23,7 @@ func init() {
 		Rule: "cases: seeded histories of 1-30 operations from {Append, Prepend, Replace, Clear, All, caller overwrites an earlier argument slice in place, caller appends into the " +
 			"spare capacity of an earlier argument, caller writes through the slice returned by All, Append/Prepend/Replace whose argument is a sub-slice of All(), caller keeps the result of All() and later passes it back as an argument} on one dst.Decorations; arguments are sub-slices of a shared arena with " +
 			"seeded spare capacity (also nil and empty variadics). A []string reference model is stepped in lock-step; the arena is snapshotted around every call (whole " +
-			"arg[:cap(arg)]); at the end (every 10th history) the list is attached to one of 18 decoration points of a parsed file (statement, value / type / import spec, field, function declaration, call, case clause), printed, and the comment stream of the output is compared with " +
+			"arg[:cap(arg)]); at the end (every 10th history) the list is attached to one of 21 decoration points of a parsed file (statement, value / type / import spec, field, function declaration, call, case clause, and Start / X / End of a package-qualified identifier restored with import management), printed, and the comment stream of the output is compared with " +
 			"All(). distinct_nontrivial = distinct (operation-kind sequence) hashes of length >= 3.",
 		Floor: 5000,
 		Run:   runC19,
@@ -313,11 +316,50 @@ func c19Render(c *fw.Ctx, id string, where int, d dst.Decorations, fail func(rul
 		{"CaseClause.Colon", &cc.Decs.Colon}, {"CaseClause.Case", &cc.Decs.Case},
 		{"GenDecl.Start", &f.Decls[1].(*dst.GenDecl).Decs.Start},
 	}
+	// a package-qualified identifier under import management (rendered by the hand-written
+	// identifier-to-selector expansion): its three points
+	var fi *dst.File
+	if k := where % (len(targets) + 3); k >= len(targets) {
+		d2 := decorator.NewDecoratorWithImports(token.NewFileSet(), "example.com/self", goast.New())
+		fi, err = d2.Parse("package p\n\nimport \"fmt\"\n\nfunc f() {\n\tg(fmt.Println, 1)\n}\n")
+		if err != nil {
+			return
+		}
+		id, ok := fi.Decls[1].(*dst.FuncDecl).Body.List[0].(*dst.ExprStmt).X.(*dst.CallExpr).Args[0].(*dst.Ident)
+		if !ok || id.Path != "fmt" {
+			return
+		}
+		switch k - len(targets) {
+		case 0:
+			targets = append(targets, struct {
+				name string
+				at   *dst.Decorations
+			}{"Ident(qualified).Start", &id.Decs.Start})
+		case 1:
+			targets = append(targets, struct {
+				name string
+				at   *dst.Decorations
+			}{"Ident(qualified).X", &id.Decs.X})
+		default:
+			targets = append(targets, struct {
+				name string
+				at   *dst.Decorations
+			}{"Ident(qualified).End", &id.Decs.End})
+		}
+		where = len(targets) - 1
+	} else {
+		where = k
+	}
 	t := targets[where%len(targets)]
 	*t.at = d
 	point := t.name
 	var buf bytes.Buffer
-	if err := decorator.Fprint(&buf, f); err != nil {
+	if fi != nil {
+		if err := decorator.NewRestorerWithImports("example.com/self", guess.New()).Fprint(&buf, fi); err != nil {
+			fail("render-error", point+": "+err.Error())
+			return
+		}
+	} else if err := decorator.Fprint(&buf, f); err != nil {
 		fail("render-error", point+": "+err.Error())
 		return
 	}
